@@ -247,6 +247,16 @@ impl GitSyncServer {
             encryption_secret,
             version_retention: VERSION_RETENTION,
         };
+        // When syncing with a remote, commits that were never pushed (a write that was
+        // interrupted between commit and push, or work done while `local_only`) are published
+        // now. If the remote has moved on in the meantime they are discarded, exactly as
+        // add_version discards a commit whose push is rejected; the versions in them were never
+        // acknowledged to anybody but this clone.
+        let mut server = server;
+        if !server.push()? {
+            server.reset_to_remote()?;
+            server.read_meta()?;
+        }
         Ok(server)
     }
 
@@ -393,19 +403,19 @@ impl GitSyncServer {
         Ok(())
     }
 
-    /// Discard everything in the working tree that is not committed: modifications of tracked
-    /// files (such as `meta`), staged additions, and stray untracked TaskChampion files. Used when
-    /// a write failed part-way, so that an uncommitted version or snapshot is neither served nor
-    /// built upon.
-    fn discard_uncommitted(&self) -> Result<()> {
-        if self
-            .git
-            .cmd_ok(&self.local_path, &["rev-parse", "--verify", "-q", "HEAD"])?
-        {
-            self.git
-                .cmd(&self.local_path, &["reset", "--hard", "HEAD"])?;
-        }
+    /// Return the working tree and the branch to `commit`: modifications of tracked files (such
+    /// as `meta`), staged additions, commits made since, and stray untracked TaskChampion files
+    /// are all dropped. Used when a write failed part-way, so that a version or snapshot the
+    /// write did not complete is neither served nor built upon.
+    fn restore_to(&self, commit: &str) -> Result<()> {
+        self.git
+            .cmd(&self.local_path, &["reset", "--hard", commit])?;
         self.git.clean_stray_files(&self.local_path)
+    }
+
+    /// The commit the branch currently points to.
+    fn head(&self) -> Result<String> {
+        self.git.output(&self.local_path, &["rev-parse", "HEAD"])
     }
 
     /// Push to the remote branch. Returns `true` on success, `false` if the push is rejected.
@@ -700,6 +710,7 @@ impl Server for GitSyncServer {
             history_segment,
         };
         let previous_latest = self.meta.latest_version;
+        let previous_head = self.head()?;
         let committed = (|| {
             let version_path = self.add_version_by_parent_version_id(&version)?;
             self.meta.latest_version = version_id;
@@ -711,17 +722,30 @@ impl Server for GitSyncServer {
             )
         })();
         if let Err(e) = committed {
-            // The version was not committed: forget it, and remove what was written for it.
+            // The write did not complete: forget the version, and remove whatever was written
+            // (or even committed) for it.
             self.meta.latest_version = previous_latest;
-            if let Err(e2) = self.discard_uncommitted() {
+            if let Err(e2) = self.restore_to(&previous_head) {
                 log::warn!("add_version failed and its leftovers could not be removed: {e2}");
             }
             return Err(e);
         }
 
         // Push, reverting the commit if the push fails.
-
-        if !self.push()? {
+        let pushed = match self.push() {
+            Ok(pushed) => pushed,
+            Err(e) => {
+                // The push could not be carried out, so the version exists in this clone only.
+                // Take the commit back: a version the remote has not accepted must not be
+                // served or built upon, and the caller still has the operations to send again.
+                self.meta.latest_version = previous_latest;
+                if let Err(e2) = self.restore_to(&previous_head) {
+                    log::warn!("add_version: push failed and the commit could not be undone: {e2}");
+                }
+                return Err(e);
+            }
+        };
+        if !pushed {
             // Push was rejected. Undo the commit. reset_to_remote will fetch, reset --hard,
             // and clean away the stray version file.
             self.git
@@ -777,6 +801,7 @@ impl Server for GitSyncServer {
             payload: Vec::<u8>::from(sealed),
         };
         let snapshot_path = self.local_path.join("snapshot");
+        let previous_head = self.head()?;
         let committed = (|| {
             let f = File::create(&snapshot_path)?;
             serde_json::to_writer(f, &snapshot_file)?;
@@ -786,16 +811,25 @@ impl Server for GitSyncServer {
                 .stage_and_commit(&self.local_path, &[&snapshot_path], "add snapshot")
         })();
         if let Err(e) = committed {
-            // The snapshot was not committed: restore the previous one.
-            if let Err(e2) = self.discard_uncommitted() {
+            // The write did not complete: restore the previous snapshot.
+            if let Err(e2) = self.restore_to(&previous_head) {
                 log::warn!("add_snapshot failed and its leftovers could not be removed: {e2}");
             }
             return Err(e);
         }
 
         // Push, reverting the commit if the push fails.
-
-        if !self.push()? {
+        let pushed = match self.push() {
+            Ok(pushed) => pushed,
+            Err(e) => {
+                // As in add_version: do not keep a snapshot commit the remote never received.
+                if let Err(e2) = self.restore_to(&previous_head) {
+                    log::warn!("add_snapshot: push failed and the commit could not be undone: {e2}");
+                }
+                return Err(e);
+            }
+        };
+        if !pushed {
             // Push was rejected. Undo the commit and reset_to_remote to restore state.
             self.git
                 .cmd(&self.local_path, &["reset", "HEAD~1", "--soft"])?;
